@@ -1,5 +1,7 @@
 import RisorModel.Util
 import RisorModel.C17.Model
+import RisorModel.C17.FragWF
+import RisorModel.C01.Decode
 /-!
 Line-protocol front end of the C17 model.
 
@@ -11,6 +13,11 @@ Line-protocol front end of the C17 model.
   `ord <perm> <nodes> <table>`  →  `ok <reload of the marshalled state with its code list in the order perm: ok | err:…>
                              <childBeforeParent of that list> <id of the entry point (hex) | -> <ids of the list in file order>
                              <ids of the tree in Flatten order>`   (see "order of the serialised code list" in Props)
+
+  `frag <frag|fun> <sexp> <globals> <nodes> <table>`  →  `out` (the program is outside C01's fragment) |
+        `in <nodesEq> <tableEq> <globalsEq> <WF> <named> <utf8> <roundtrip> <diff>`: the REAL compiled tree
+        (`<nodes> <table>`) against the embedding `fragToC17 env (Frag.compF p)` / `funProg env p` of the
+        fragment compiler's output, `env` taken from the real tree (FragWF.lean); see "fragments" below
 
 `<nodes>`/`<table>` are space-separated token streams (strings in hex, `-` = empty):
   nodes := N count node*
@@ -302,7 +309,58 @@ def showRes : Option Res → String
   | some (.code q) => "c " ++ showNodes q.nodes ++ "|" ++ showTable q.table
   | some (.failed e) => "e " ++ errName e
 
+/-! ### fragments: the real compiled tree against the embedded output of C01's fragment compilers
+
+`env` is read off the real tree (source texts, contents and children of the root table, which
+child of the root each function's table is); the global names are the host's followed by what
+the program declares.  `nodesEq`: every code object of `…ToC17 env …` equals the real one field
+by field (id, name, isNamed, parent, functionID, tableID, source, instruction words, constants
+with function↔code links, names).  `WF`, `named`, `utf8`, `roundtrip` are evaluated on the MODEL
+side (`frag_compile_wf` / `fun_compile_wf` say `WF` is always 1). -/
+
+open Risor.C01 in
+def fragEnvOf (r : Prog) (globalNames : List String) : FragWF.Env :=
+  { source := (r.nodes.head?.map (·.source)).getD [],
+    funSources := r.nodes.tail.map (·.source),
+    globalNames := globalNames,
+    syms := r.table.symbols, byName := r.table.byName, free := r.table.free, kids := r.table.children,
+    funTablePos := r.nodes.tail.map fun n => r.table.children.findIdx (fun t => t.id == n.tableID) }
+
+open Risor.C01 in
+def handleFragWF : List String → String
+  | [kind, sx, globals, nodes, table] =>
+    match parseProg nodes table, decodeProg sx with
+    | some r, some p =>
+      let gs := (globals.splitOn ",").filter (· ≠ "")
+      let res : Option (Prog × List String) :=
+        if kind = "frag" then
+          if Frag.inFrag p && (Frag.decls p).all (fun x => !gs.contains x) then
+            let gn := gs ++ Frag.decls p
+            some (FragWF.fragToC17 (fragEnvOf r gn) (Frag.compF p), gn)
+          else none
+        else if kind = "fun" then
+          if Fun.inFun p && (Fun.namedFuns p ++ Fun.decls p).all (fun x => !gs.contains x) then
+            let gn := gs ++ Fun.namedFuns p ++ Fun.decls p
+            some (FragWF.funProg (fragEnvOf r gn) p, gn)
+          else none
+        else none
+      match res with
+      | none => "out"
+      | some (m, gn) =>
+        let nodesEq := decide (m.nodes = r.nodes)
+        let tableEq := Table.beq m.table r.table
+        let globalsEq := r.table.symbols.map (·.name) == gn.map strBytes
+        let rt := match unmarshal (marshal m) with
+          | .ok q => decide (q.nodes = m.nodes) && Table.beq q.table m.table
+          | .error _ => false
+        "\t".intercalate ["in", b01 nodesEq, b01 tableEq, b01 globalsEq, b01 (decide (WF m)),
+          b01 (NamedConsistent m), b01 (ValidUtf8Consts m), b01 rt,
+          if nodesEq then "-" else showNodes m.nodes]
+    | _, _ => "error\tbad-request"
+  | _ => "error\tbad-request"
+
 def handle : List String → String
+  | "frag" :: rest => handleFragWF rest
   | ["rt", nodes, table] =>
     match parseProg nodes table with
     | none => "error\tbad-request"
